@@ -34,6 +34,7 @@ type Vars struct {
 	Late      int  // value of a global that gen's function refers to but that is assigned below the target() call
 	AlwaysGen bool // gen is declared always=True
 	Sabotage  bool // leaf's body removes .dawn/build/temp, so that recording its result fails
+	Diamond   bool // leaf also depends on gen, which mid reaches through the generated file (a shared dependency)
 	Missing   bool // top also depends on a target that does not exist
 	Cycle     bool // leaf depends on top (a dependency cycle when the edge top->leaf exists)
 	Chatty    bool // bodies print lines (and a trailing partial line) through the thread's stdout
@@ -85,20 +86,25 @@ func (v Vars) render() map[string]string {
 		lib.WriteString("# a comment\n\n")
 	}
 	fmt.Fprintf(&lib, "K = %d\n", kvals[v.K])
+	// a self-referential function below the comment toggle (its position moves with the comment)
+	lib.WriteString("def depth(n):\n    return 0 if n <= 0 else 1 + depth(n - 1)\n")
 	lib.WriteString("def helper(x):\n")
 	if v.C2 {
 		lib.WriteString("    \"\"\"helper adds K.\"\"\"\n")
 	}
 	if v.H == 0 {
-		lib.WriteString("    return x + K\n")
+		lib.WriteString("    return x + K + depth(2) - 2\n")
 	} else {
-		lib.WriteString("    return K + x + 0\n")
+		lib.WriteString("    return K + x + 0 + depth(2) - 2\n")
 	}
 	lib.WriteString("def make(n):\n    def inner(z):\n        return z + n\n    return inner\n")
 	f["lib.dawn"] = lib.String()
 
 	var b strings.Builder
-	b.WriteString("load(\"//:lib.dawn\", \"helper\", \"make\")\n")
+	// the library's helper is loaded under another name and wrapped by a local function of the
+	// SAME name: two different functions called "helper" are reachable from gen
+	b.WriteString("load(\"//:lib.dawn\", \"make\", lib_helper=\"helper\")\n")
+	b.WriteString("def helper(x):\n    return lib_helper(x)\n")
 	if v.C1 {
 		b.WriteString("\n# a comment and a blank line\n\n")
 	}
@@ -121,7 +127,7 @@ def _top(t):
 	}
 	extra := ""
 	if v.Missing {
-		extra = ", \"//pkg:nosuch\""
+		extra = ", \"//pkg:leef\"" // a near-miss of //pkg:leaf (the error then carries a "did you mean" hint)
 	}
 	if v.Edge {
 		b.WriteString("    emit(\"out/top\", \"top:\" + slurp(\"out/mid\") + \":\" + slurp(\"out/leaf\"))\n")
@@ -149,9 +155,12 @@ def _top(t):
 	if v.Chatty {
 		p.WriteString("    say(\"leaf says\\n\")\n    say(\"hello\")\n    say(\" world\\n\")\n")
 	}
-	if v.Cycle {
+	switch {
+	case v.Cycle:
 		p.WriteString("target(name=\"leaf\", function=_leaf, sources=[\"b.txt\"], deps=[\"//:top\"])\n")
-	} else {
+	case v.Diamond:
+		p.WriteString("target(name=\"leaf\", function=_leaf, sources=[\"b.txt\"], deps=[\"//:gen\"])\n")
+	default:
 		p.WriteString("target(name=\"leaf\", function=_leaf, sources=[\"b.txt\"])\n")
 	}
 	if v.Other {
@@ -222,6 +231,10 @@ func (v Vars) deps(t string) []string {
 			return []string{tMid, tLeaf}
 		}
 		return []string{tMid}
+	case tLeaf:
+		if v.Diamond && !v.Cycle {
+			return []string{tGen}
+		}
 	}
 	return nil
 }
